@@ -186,14 +186,17 @@ META = {
         "variants": ALL_VARIANTS,
         "rule": ("batch prefix: RawSocket handshake octets 1-2 walk all 65536 values (quick tier: 4096-value sample, dense "
                  "around the magic octet) against a real server and a real client endpoint, reserved octets and short / "
-                 "over-long handshakes drawn, seeded segmentation; then per 10 runs: 2x WebSocket subprotocol "
+                 "over-long handshakes drawn, seeded segmentation; then per 12 runs: 2x cross-framework pairing (the local "
+                 "real endpoint against the real endpoint of the other framework hosted in a helper interpreter, both roles, "
+                 "RawSocket and WebSocket, handshake plus traffic both ways under this worker's segmentation), 2x WebSocket subprotocol "
                  "negotiation over drawn pairs of serializer lists (subsets, orders, batched), 3x traffic (real transport "
                  "pair, stub sessions, up to 8 messages per direction out of all 25 message types, sizes around the "
                  "negotiated limits), 1x RawSocket length limits vs a raw peer announcing every exponent and sending an "
                  "over-long frame prefix, 2x corruption (flipped frame type, garbage, truncated, non-list, unknown type, "
                  "out-of-phase, session raising in onOpen/onMessage), 2x generated handshakes; non-trivial = at least "
                  "2 scheduler steps; distinct = hash of (action kind, endpoint state) sequence"),
-        "real": REAL_STACK,
+        "real": REAL_STACK + ["cross-framework mode: the remote endpoint is the real transport of the other framework (Twisted <-> asyncio) "
+                              "in a helper interpreter stepped by the simulator (sim/xpeer.py)"],
         "stub": STUB_STACK,
         "design_ref": "DESIGN.md section 4, C13",
     },
